@@ -222,6 +222,11 @@ Proof.
     { intros q. rewrite Eq. cbn [s0 queue queued_for delivered_to sent_to].
       assert (Hpq : pending_of s0 q = pending_of s q) by reflexivity. rewrite Hpq.
       destruct (Nat.eqb p q); cbn [app]; rewrite !app_nil_r; reflexivity. }
+    assert (D0N : Delta s s0 [dev p m o]).
+    { unfold dev. destruct (invocable (mbeh m)); [exact D0|].
+      intros q. rewrite Eq. cbn [s0 queue queued_for delivered_to sent_to].
+      assert (Hpq : pending_of s0 q = pending_of s q) by reflexivity. rewrite Hpq.
+      destruct (Nat.eqb p q); cbn [app]; rewrite !app_nil_r; reflexivity. }
     destruct o as [v|f].
     + destruct (meth_send good_pcfg s0 m) as [s1 e1] eqn:E1.
       destruct (meth_result (next s0) s1 m) as [s2 x] eqn:E2.
@@ -230,8 +235,8 @@ Proof.
       pose proof (meth_send_good _ _ _ _ I0 E1) as G1. apply delta_meth_send in E1; [|exact I0].
       pose proof (meth_result_good _ _ _ _ _ (good_inv _ _ _ G1) E2) as G2. apply delta_meth_result in E2.
       apply delta_resolver_opt in E3; [|eapply good_inv; exact G2].
-      change (EDelivered p (mid m) (Val v) :: e1 ++ e3) with ([EDelivered p (mid m) (Val v)] ++ (e1 ++ ([] ++ e3))).
-      eapply delta_trans; [exact D0|]. eapply delta_trans; [exact E1|]. eapply delta_trans; eassumption.
+      change (dev p m (Val v) :: e1 ++ e3) with ([dev p m (Val v)] ++ (e1 ++ ([] ++ e3))).
+      eapply delta_trans; [exact D0N|]. eapply delta_trans; [exact E1|]. eapply delta_trans; eassumption.
     + destruct (resolver good_pcfg s0 (mres m) (RFail f)) as [s1 e1] eqn:E1.
       intros H; injection H as <- <-. apply delta_resolver in E1; [|exact I0].
       change (EDelivered p (mid m) (Fail f) :: e1) with ([EDelivered p (mid m) (Fail f)] ++ e1).
@@ -529,6 +534,9 @@ Proof.
   - destruct T0 as (pr & o & Hp & R). rewrite Hp. pose proof R as (T & _). rewrite T.
     assert (D0 : DeltaW s s0 [EDelivered p (mid m) o]).
     { apply dw_of_eq. intros q. rewrite Eq. cbn [s0 queue cb_for observed whens app]. rewrite app_nil_r. reflexivity. }
+    assert (D0N : DeltaW s s0 [dev p m o]).
+    { unfold dev. destruct (invocable (mbeh m)); [exact D0|].
+      apply dw_of_eq. intros q. rewrite Eq. cbn [s0 queue cb_for observed whens app]. rewrite app_nil_r. reflexivity. }
     destruct o as [v|f].
     + destruct (meth_send good_pcfg s0 m) as [s1 e1] eqn:E1.
       destruct (meth_result (next s0) s1 m) as [s2 x] eqn:E2.
@@ -537,8 +545,8 @@ Proof.
       pose proof (meth_send_good _ _ _ _ I0 E1) as G1. apply dw_meth_send in E1; [|exact I0].
       pose proof (meth_result_good _ _ _ _ _ (good_inv _ _ _ G1) E2) as G2. apply dw_meth_result in E2.
       apply dw_resolver_opt in E3; [|eapply good_inv; exact G2].
-      change (EDelivered p (mid m) (Val v) :: e1 ++ e3) with ([EDelivered p (mid m) (Val v)] ++ (e1 ++ ([] ++ e3))).
-      eapply dw_trans; [exact D0|]. eapply dw_trans; [exact E1|]. eapply dw_trans; eassumption.
+      change (dev p m (Val v) :: e1 ++ e3) with ([dev p m (Val v)] ++ (e1 ++ ([] ++ e3))).
+      eapply dw_trans; [exact D0N|]. eapply dw_trans; [exact E1|]. eapply dw_trans; eassumption.
     + destruct (resolver good_pcfg s0 (mres m) (RFail f)) as [s1 e1] eqn:E1.
       intros H; injection H as <- <-. apply dw_resolver in E1; [|exact I0].
       change (EDelivered p (mid m) (Fail f) :: e1) with ([EDelivered p (mid m) (Fail f)] ++ e1).
@@ -879,8 +887,8 @@ Proof.
       pose proof (meth_send_good _ _ _ _ I0 E1) as G1. apply li_meth_send in E1 as [L1 N1]; [|exact I0|exact L0].
       pose proof (meth_result_good _ _ _ _ _ (good_inv _ _ _ G1) E2) as G2. apply li_meth_result in E2; [|exact L1].
       apply li_resolver_opt in E3 as [L3 N3]; [|eapply good_inv; exact G2|exact E2].
-      split; [exact L3|]. change (EDelivered p (mid m) (Val v) :: e1 ++ e3) with ([EDelivered p (mid m) (Val v)] ++ (e1 ++ e3)).
-      apply nocrash_app; [apply nocrash_one; discriminate|apply nocrash_app; assumption].
+      split; [exact L3|]. change (dev p m (Val v) :: e1 ++ e3) with ([dev p m (Val v)] ++ (e1 ++ e3)).
+      apply nocrash_app; [apply nocrash_one; intros q0 top0; apply dev_not_crash|apply nocrash_app; assumption].
     + destruct (resolver good_pcfg s0 (mres m) (RFail f)) as [s1 e1] eqn:E1.
       intros H; injection H as <- <-. apply li_resolver in E1 as [L1 N1]; [|exact I0|exact L0].
       split; [exact L1|]. change (EDelivered p (mid m) (Fail f) :: e1) with ([EDelivered p (mid m) (Fail f)] ++ e1).
